@@ -134,7 +134,7 @@ func TestC04(t *testing.T) {
 	nums := []string{"0", "1", "12", "0.5", ".5", "007", "1.50", "100", "3.0"}
 	runProp(t, "conv", 240000, 3000000, func(t *rapid.T) {
 		var cls, wrap string
-		c, p := genDocCase(t, caseOpts{cfg: xmodel.GenCfg{MaxDepth: 3, MaxKids: 3, MaxTop: 1, Forest: true}, vars: true, nodeVars: true},
+		c, p := genDocCase(t, caseOpts{cfg: xmodel.GenCfg{MaxDepth: 3, MaxKids: 3, MaxTop: 1, Forest: true, Stress: true}, vars: true, nodeVars: true},
 			func(g *xast.G, p *prepared) *xast.Expr { return xast.Num("0") }, xast.Style{})
 		if c == nil {
 			return
@@ -296,7 +296,7 @@ func TestC04(t *testing.T) {
 		}
 	})
 	runProp(t, "stringvalue", 24000, 100000, func(t *rapid.T) {
-		c := &c10Case{Events: xmodel.Gen(t, xmodel.GenCfg{MaxDepth: 4, MaxKids: 4, MaxTop: 2, Forest: true})}
+		c := &c10Case{Events: xmodel.Gen(t, xmodel.GenCfg{MaxDepth: 4, MaxKids: 4, MaxTop: 2, Forest: true, Stress: true})}
 		c04SV.run(t, c)
 	})
 }
